@@ -343,7 +343,21 @@ func init() {
 					perr = fmt.Errorf("args")
 					return "", nil
 				}
-				return fmtCFListPtr(b.GetCFList(args[0])), nil
+				// the CFList, and whether the MAC layer can carry it: encoded inside a join-accept payload and decoded back
+				// (mac=1 same values, mac=0 not encodable or decoded differently, mac=- no CFList)
+				cf := b.GetCFList(args[0])
+				mac := "-"
+				if cf != nil {
+					mac = "0"
+					ja := lw.JoinAcceptPayload{CFList: cf}
+					if bs, e := ja.MarshalBinary(); e == nil {
+						var back lw.JoinAcceptPayload
+						if e := back.UnmarshalBinary(false, bs); e == nil && fmtCFListPtr(back.CFList) == fmtCFListPtr(cf) {
+							mac = "1"
+						}
+					}
+				}
+				return fmtCFListPtr(cf) + " mac=" + mac, nil
 			case "plan":
 				if len(args) != 1 {
 					perr = fmt.Errorf("args")
